@@ -65,12 +65,15 @@ func (o UnmarshalOptions) unmarshalMessageSet(b []byte, m protoreflect.Message) 
 	if !flags.ProtoLegacy {
 		return errors.New("no support for message_set_wire_format")
 	}
-	return messageset.Unmarshal(b, false, func(num protowire.Number, v []byte) error {
-		err := o.unmarshalMessageSetField(m, num, v)
+	// The item values include their length prefix, so that an unresolved item is
+	// kept byte for byte, exactly as the fast-path decoder in internal/impl does.
+	return messageset.Unmarshal(b, true, func(num protowire.Number, v []byte) error {
+		mv, _ := protowire.ConsumeBytes(v)
+		err := o.unmarshalMessageSetField(m, num, mv)
 		if err == errUnknown {
 			unknown := m.GetUnknown()
 			unknown = protowire.AppendTag(unknown, num, protowire.BytesType)
-			unknown = protowire.AppendBytes(unknown, v)
+			unknown = append(unknown, v...)
 			m.SetUnknown(unknown)
 			return nil
 		}
